@@ -57,21 +57,15 @@ Theorem C27_convert_idempotent_integer :
 Proof. exact representable_is_fixpoint_narrow. Qed.
 Print Assumptions C27_convert_idempotent_integer.
 
-(* REFUTED: an unsigned underflow is flagged but the returned value is wrapped, not the nearest representable one
-   (and INSERT IGNORE stores it); for MEDIUMINT UNSIGNED it can leave the type's range *)
+(* REFUTED (for INSERT IGNORE, which stores the value Convert returns): an unsigned underflow is flagged, but the
+   returned value is wrapped, not the nearest representable one; for MEDIUMINT UNSIGNED it can leave the type's range.
+   At the Convert level alone the flag reports the change, which is all the property demands there. *)
 Theorem C27_unsigned_underflow_nearest_refuted :
   conv_int U8 (SI (-1)) = COk (SU 255) Underflow /\
   conv_int U64 (SI (-1)) = COk (SU 18446744073709551615) Underflow /\
   conv_int U24 (SD (-184467440737095516175) 1) = COk (SU 16777216) Underflow /\ ~ in_range U24 16777216.
 Proof. exact unsigned_underflow_wraps. Qed.
 Print Assumptions C27_unsigned_underflow_nearest_refuted.
-
-(* REFUTED: a Go uint source above MaxInt64 is silently stored as a different value *)
-Theorem C27_gouint_exact_or_flag_refuted :
-  conv_int I64 (SW 18446744073709551615) = COk (SI (-1)) InRange /\
-  conv_int I24 (SW 18446744073709551615) = COk (SI (-1)) InRange.
-Proof. exact gouint_silently_altered. Qed.
-Print Assumptions C27_gouint_exact_or_flag_refuted.
 
 (* DECIMAL(p,s): never clamps; exact when the source has no more fraction digits than the type; otherwise rounded
    to a nearest value at scale s; out of range is an error; idempotent *)
